@@ -95,6 +95,7 @@ type specLevel struct {
 	kids    map[string]*specLevel
 	unknown int
 	isHelp  bool
+	ro      bool
 }
 
 type specProg struct {
@@ -126,6 +127,7 @@ func newSpecProg(def *Def, env map[string]string) *specProg {
 				l.path = parent.path + "/" + cd.Name
 			}
 			l.unknown = parent.unknown
+			l.ro = parent.ro || cd.RequireOrder
 			if cd.Unknown > 0 {
 				l.unknown = cd.Unknown - 1
 			}
@@ -136,6 +138,7 @@ func newSpecProg(def *Def, env map[string]string) *specProg {
 			}
 		} else {
 			l.unknown = def.Unknown
+			l.ro = def.RequireOrder
 		}
 		sp.levels = append(sp.levels, l)
 		for i := range cd.Opts {
@@ -307,7 +310,7 @@ func (sp *specProg) requireOrder(l *specLevel) bool {
 	if l.isHelp {
 		return false
 	}
-	return sp.def.RequireOrder
+	return l.ro
 }
 
 // SpecParse runs the reference model.
@@ -357,7 +360,7 @@ LOOP:
 				if len(m) == 0 {
 					if sp.requireOrder(level) {
 						if pi > 0 {
-							sp.mark("U14")
+							sp.markVals("U14") // whether the declared letters before the stop take effect is not stated
 						}
 						ex.StopIdx = tokIdx
 						ex.Remaining = append(ex.Remaining, argv[tokIdx:]...)
